@@ -38,6 +38,8 @@ class PybindWrapper:
         self.use_boost_serialization = use_boost_serialization
         self.ignore_classes = ignore_classes
         self._serializing_classes = []
+        # Module variables of the submodules declared so far in the current file.
+        self._submodule_vars = []
         self.module_template = module_template
         self.python_keywords = [
             'lambda', 'False', 'def', 'if', 'raise', 'None', 'del', 'import',
@@ -629,7 +631,10 @@ class PybindWrapper:
         else:
             module_var = self._gen_module_var(namespaces)
 
-            if len(namespaces) > len(self.top_module_namespaces):
+            # A namespace can be re-opened: declare its submodule variable once.
+            if len(namespaces) > len(self.top_module_namespaces) \
+                    and module_var not in self._submodule_vars:
+                self._submodule_vars.append(module_var)
                 wrapped += (
                     ' ' * 4 + 'pybind11::module {module_var} = '
                     '{parent_module_var}.def_submodule("{namespace}", "'
@@ -722,8 +727,9 @@ class PybindWrapper:
         else:
             boost_class_export = ""
 
-        # Reset the serializing classes list
+        # Reset the serializing classes list and the declared submodules
         self._serializing_classes = []
+        self._submodule_vars = []
         # Reset the overload memory of the docstring extractor
         self.xml_parser = XMLDocParser()
 
